@@ -9,7 +9,7 @@
    functions, so operands cannot change (C20_operands_unchanged states it with a store). *)
 From Coq Require Import List Arith Bool.
 Import ListNotations.
-From ZI Require Import Model.Ro Model.DeclAlg Spec.DeclAlg Proofs.DeclAlg.
+From ZI Require Import Model.Ro Model.DeclAlg Spec.DeclAlg Proofs.DeclAlg Gen.DeclAlgKernel Proofs.DeclAlgKernel.
 
 (* "keeping first occurrences" is this recursion *)
 Theorem C20_dedupe_keeps_first : forall x l,
@@ -199,6 +199,96 @@ Theorem C20_noLongerProvides_exact : forall g ifs c p i, is_iface ifs i = true -
          (filter (fun x => negb (is_or_extends g x i)) (iter g ifs (directly_provided_by p))).
 Proof. exact no_longer_provides_exact_lemma. Qed.
 Print Assumptions C20_noLongerProvides_exact.
+
+(* ---- the tie to the source TEXT.  Gen/DeclAlgKernel.v is rewritten on every run by the
+   fail-closed translator harness/translate/declalg.py from declarations.py / interface.py; its
+   definitions are parametric in what OTHER objects do (x.interfaces(), x.extends(y, strict),
+   implementedBy, directlyProvides ...).  Instantiated with the model's notions they are, for
+   all inputs, the definitions of Model/DeclAlg.v that the theorems above are about. *)
+
+(* Specification.extends / SpecificationBase.isOrExtends with "y in x._implied" := is_or_extends *)
+Theorem C20_generated_extends_eq_model : forall g x y,
+  gen_extends (is_or_extends g) x y true = extends_strict g x y /\
+  gen_extends (is_or_extends g) x y false = is_or_extends g x y /\
+  gen_isOrExtends (is_or_extends g) x y = is_or_extends g x y.
+Proof.
+  intros g x y. split; [apply gen_extends_strict|]. split; [apply gen_extends_nonstrict|apply gen_isOrExtends_eq].
+Qed.
+Print Assumptions C20_generated_extends_eq_model.
+
+(* Specification.interfaces (the seen-dict loop) is keep-first dedupe of the bases' interfaces,
+   whatever the bases answer; with InterfaceClass.interfaces it is the model's recursion *)
+Theorem C20_generated_interfaces_eq_model : forall g ifs,
+  (forall (nI : node -> list node) bs, gen_Specification_interfaces nI bs = dedupe (flat_map nI bs)) /\
+  (forall f x, interfaces_f g ifs (S f) x =
+               if is_iface ifs x then gen_InterfaceClass_interfaces x
+               else gen_Specification_interfaces (interfaces_f g ifs f) (bases g x)) /\
+  (forall d, decl_interfaces g ifs d = gen_Specification_interfaces (interfaces g ifs) d).
+Proof.
+  intros g ifs. split; [exact gen_spec_interfaces_eq|]. split.
+  - intros f x. cbn [interfaces_f]. destruct (is_iface ifs x); [reflexivity|].
+    symmetry. apply gen_spec_interfaces_eq.
+  - intros d. symmetry. apply gen_spec_interfaces_eq.
+Qed.
+Print Assumptions C20_generated_interfaces_eq_model.
+
+(* _normalizeargs (with its output accumulator) and Declaration.__init__ *)
+Theorem C20_generated_normalizeargs_eq_model : forall g ifs,
+  (forall t out, gen_normalizeargs (decl_interfaces g ifs) t out = out ++ normalize g ifs t) /\
+  (forall args, gen_Declaration (decl_interfaces g ifs) args = mk_decl g ifs args).
+Proof. intros g ifs. split; [exact (gen_normalizeargs_eq g ifs)|exact (gen_Declaration_eq g ifs)]. Qed.
+Print Assumptions C20_generated_normalizeargs_eq_model.
+
+(* __contains__ / __iter__ / flattened; the declaration's own extends is the generated
+   Specification.extends on the declaration node *)
+Theorem C20_generated_queries_eq_model : forall g ifs d x,
+  gen_contains (decl_interfaces g ifs)
+               (fun d x s => gen_extends (fun _ y => mem y (decl_sro g d)) (fresh_id g d) x s) d x
+  = contains g ifs d x /\
+  gen_iter (decl_interfaces g ifs) d = iter g ifs d /\
+  gen_flattened (flattened g ifs) d = flattened g ifs d.
+Proof. intros. repeat split. Qed.
+Print Assumptions C20_generated_queries_eq_model.
+
+Theorem C20_generated_sub_eq_model : forall g ifs a b,
+  gen_sub (decl_interfaces g ifs) (gen_extends (is_or_extends g)) a b = sub g ifs a b.
+Proof. exact gen_sub_eq. Qed.
+Print Assumptions C20_generated_sub_eq_model.
+
+Theorem C20_generated_add_eq_model : forall g ifs a b x,
+  gen_add (decl_interfaces g ifs) (gen_extends (is_or_extends g)) a b = add g ifs a b /\
+  gen_radd (decl_interfaces g ifs) (gen_extends (is_or_extends g)) a [x] = radd g ifs x a.
+Proof. intros g ifs a b x. split; [apply gen_add_eq|apply gen_radd_eq]. Qed.
+Print Assumptions C20_generated_add_eq_model.
+
+(* _add_interfaces_to_cls, and directlyProvides' effect expressed through it *)
+Theorem C20_generated_add_interfaces_to_cls_eq_model : forall g ifs l c args,
+  gen_add_interfaces_to_cls (gen_isOrExtends (is_or_extends g)) (fun k => k) l c = strip_cls g c l ++ [c] /\
+  directly_provides g ifs c args =
+  gen_add_interfaces_to_cls (gen_isOrExtends (is_or_extends g)) (fun k => k)
+                            (gen_Declaration (decl_interfaces g ifs) args) c.
+Proof. intros g ifs l c args. split; [reflexivity|apply directly_provides_via_kernel]. Qed.
+Print Assumptions C20_generated_add_interfaces_to_cls_eq_model.
+
+Theorem C20_generated_directlyProvidedBy_eq_model : forall g ifs p,
+  gen_directlyProvidedBy (decl_interfaces g ifs) (fun _ => false) p = directly_provided_by p.
+Proof. exact gen_directlyProvidedBy_eq. Qed.
+Print Assumptions C20_generated_directlyProvidedBy_eq_model.
+
+Theorem C20_generated_alsoProvides_eq_model : forall g ifs c p args,
+  gen_alsoProvides (decl_interfaces g ifs) (fun _ => false)
+                   (fun _ args => Some (directly_provides g ifs c args)) p args
+  = (also_provides g ifs c p args, false).
+Proof. exact gen_alsoProvides_eq. Qed.
+Print Assumptions C20_generated_alsoProvides_eq_model.
+
+Theorem C20_generated_noLongerProvides_eq_model : forall g ifs c p i,
+  gen_noLongerProvides (decl_interfaces g ifs) (fun _ => false) (gen_extends (is_or_extends g))
+                       (fun i st => match st with Some bs => mem i (decl_sro g bs) | None => false end)
+                       (fun _ args => Some (directly_provides g ifs c args)) p i
+  = no_longer_provides g ifs c p i.
+Proof. exact gen_noLongerProvides_eq. Qed.
+Print Assumptions C20_generated_noLongerProvides_eq_model.
 
 (* ---- non-vacuity: a concrete well-formed world with non-trivial answers.
    0 = Interface; I1 <- I2 <- I3 (a chain); I4 unrelated; 5 = implementedBy(object);
